@@ -1,5 +1,6 @@
 mod c01;
 mod c05;
+mod c10;
 mod c15;
 mod dump;
 mod progen;
@@ -19,6 +20,7 @@ fn main() {
     match argv[1].as_str() {
         "c01" => c01::main(&args),
         "c05" => c05::main(&args),
+        "c10" => c10::main(&args),
         "c15" => c15::main(&args),
         "probe" => probe::main(&args),
         other => {
